@@ -92,6 +92,8 @@ class IC10Operand:
             value = value.Id or "db"
         elif isinstance(value, DeviceId):
             value = value._id or "db"
+        elif isinstance(value, bool):
+            value = int(value)
         elif isinstance(value, float) and int(value) == value:
             value = int(value)
         self.value = value
